@@ -37,6 +37,29 @@ REF_TO_NOT = re.compile(r"&\s*\w+\s*=\s*!\s*(true|false)\b")
 REFLECTION = re.compile(r"\b(parse|get_parse_tree|call_exists)\b|\.children|\.text\b|AST_Node")
 
 
+def user_operator_programs(rng, n):
+    """operators overloaded by the script on operand types the built-ins do not cover (number x string, number x bool, string x number, ...),
+    applied to every mix of variable / literal operands: the folding passes look at operand KINDS (constant or not, arithmetic or not) and must
+    not change which overload runs.  Outside the Lean model (no user operators there): decided by optimizer on vs off."""
+    out = []
+    lits = {"int": ["3", "0", "(-2)"], "string": ['"ab"', '""'], "bool": ["true", "false"], "double": ["1.5"]}
+    for k in range(n):
+        op = rng.choice(["+", "-", "*", "/", "%", "<", "<=", ">", "==", "!=", "<<", "&", "|", "^"])
+        ta, tb = rng.choice([("int", "string"), ("int", "bool"), ("string", "int"), ("bool", "int"), ("double", "string"), ("int", "int"), ("string", "string"), ("bool", "bool")])
+        if (ta, tb) in (("int", "int"), ("string", "string"), ("bool", "bool")) and op in ("+", "==", "!=", "<", "<=", ">"):
+            ta, tb = "int", "string"                       # leave the built-in overloads alone
+        body = rng.choice(['"u:" + to_string(a) + ":" + to_string(b)', "%d" % rng.range(100, 999), "[a, b]"])
+        prog = "def `%s`(%s a, %s b) { %s }; var va = %s; var vb = %s; " % (op, ta, tb, body, rng.choice(lits[ta]), rng.choice(lits[tb]))
+        forms = []
+        for la in ("va", rng.choice(lits[ta])):
+            for lb in ("vb", rng.choice(lits[tb])):
+                forms.append("pr(%s %s %s)" % (la, op, lb))
+        forms.append("pr((va %s %s) == (va %s vb))" % (op, rng.choice(lits[tb]), op) if body.startswith('"') or body[0].isdigit() else "pr(1)")
+        prog += "; ".join(rng.shuffle(forms)[:rng.range(2, 5)])
+        out.append(prog)
+    return out
+
+
 def big_ints(x):
     """the model computes in unbounded integers: runs that leave the int range are outside what it speaks about (C05 covers arithmetic)"""
     return any(abs(int(v)) >= 2 ** 30 for v in re.findall(r"i(-?\d+)", x))
@@ -154,6 +177,7 @@ def run(ctx):
     p = os.path.join(C.VERIF, "corpus", "C02", "raw.txt")
     if os.path.exists(p):
         raw = [l.rstrip("\n") for l in open(p) if l.strip() and not l.startswith("#")]
+    raw += user_operator_programs(rng, 300 if thorough else 60)
     if raw:
         ro, _ = C.run_harness_resilient(exe, [], ["1000000 std 1 opt %s" % t.encode().hex() for t in raw], timeout=300, mem_gb=6)
         rn, _ = C.run_harness_resilient(exe, [], ["1000000 std 1 noopt %s" % t.encode().hex() for t in raw], timeout=300, mem_gb=6)
